@@ -116,7 +116,7 @@ impl PreBoneDeformer {
             .items
             .iter()
             .find(|x| x.body_id == from_body_id)?;
-        let mut next = &self.header.links[item.link_index as usize];
+        let mut next = self.header.links.get(item.link_index as usize)?;
 
         if next.next_sibling_index == -1 {
             return None;
@@ -136,8 +136,8 @@ impl PreBoneDeformer {
                 break;
             }
 
-            next = &self.header.links[next.parent_index as usize];
-            item = &self.header.items[next.deformer_index as usize];
+            next = self.header.links.get(next.parent_index as usize)?;
+            item = self.header.items.get(next.deformer_index as usize)?;
 
             if item.body_id == to_body_id {
                 break;
